@@ -158,6 +158,11 @@ def check_state(w, hist):
     rs = report_struct(rm)
     if norm(rs) != norm(mem):
         bad("report_model_differs", "report model %r differs from the in-memory coverage %r" % (rs, mem), norm(rs), norm(mem))
+    # ---- every instance can be told apart: the names of the instances listed under one type are pairwise distinct
+    for rcg in rm.covergroups:
+        nms = [s.name for s in rcg.covergroups]
+        if len(set(nms)) != len(nms):
+            bad("instance_names_distinct", "the report lists the instances of type %s as %r" % (rcg.name, nms), nms, "pairwise distinct names")
     # ---- percentages of the report model
     from vsc.impl.coverage_registry import CoverageRegistry
     types = [t for lst in CoverageRegistry.inst().covergroup_type_m.values() for t in lst]
@@ -238,7 +243,7 @@ def _mk(name):
 
 
 EXPAND = {}
-for _n in c12.CONFIGS:
+for _n in c12.world_names():
     EXPAND[_n] = _mk(_n)
     globals()["expand13_" + _n] = EXPAND[_n]
 
@@ -251,12 +256,12 @@ def run(res, only=None):
     depth = 5 if res.tier == "quick" else 6
     allstats = {}
     tot_states = tot_trans = reports = 0
-    for name in c12.CONFIGS:
+    for name in c12.world_names():
         if only and only != name:
             continue
-        if c12.CONFIGS[name].get('no_c13'):
+        if c12.CONFIGS[name.split("@")[0]].get('no_c13'):
             continue      # cross weights: the PyUCIS report builder does not read a cross's weight (outside pyvsc)
-        stats, viols, cnts = bfs.search(EXPAND[name], c12.replay_hist(name, []).key(), depth, seed=res.seed,
+        stats, viols, cnts = bfs.search(EXPAND[name], c12.replay_hist(name, []).key(), depth - (1 if "@" in name else 0), seed=res.seed,
                                         max_states=(20000 if res.tier == "quick" else 100000))
         allstats[name] = stats
         tot_states += stats["states"]
